@@ -130,7 +130,7 @@ def check(prop: str, tier: str) -> int:
             rep.note(f"self-test harness failed: {type(e).__name__}: {e}")
     meta = dict(mod.META)
     meta["checker_cmd"] = f"./check {prop} --tier {tier}"
-    return rep.finish(meta)
+    return rep.finish(meta, write=os.environ.get("MYSTSA_NOWRITE") != "1")
 
 
 def replay(path: str) -> int:
